@@ -477,6 +477,30 @@ def gen_box(rs, wide=False):
     return ("mat", m)
 
 
+NONASCII_CHARS = "\u00c5\u00b0\u00b5\u00e9\u00fc\u20ac\u6c34\u7bb1\u03b1"   # A-ring degree micro e-acute u-umlaut euro CJK CJK alpha
+
+
+def nonascii_ok():
+    """titles with multi-byte characters are only generated when the interpreter's text encoding (the one
+    open() uses for the .gro files) can encode them (UTF-8 here)"""
+    import locale
+    try:
+        NONASCII_CHARS.encode(locale.getpreferredencoding(False))
+        return True
+    except (UnicodeError, LookupError):
+        return False
+
+
+def gen_title_nonascii(rs):
+    """S only (the Coq model is ASCII): 1-3 multi-byte characters among printable ASCII"""
+    n = int(rs.randint(1, 30))
+    chars = "".join(chr(c) for c in range(32, 127))
+    t = [chars[int(rs.randint(0, len(chars)))] for _ in range(n)]
+    for _ in range(int(rs.randint(1, 4))):
+        t.insert(int(rs.randint(0, len(t) + 1)), NONASCII_CHARS[int(rs.randint(0, len(NONASCII_CHARS)))])
+    return "".join(t)
+
+
 def gen_title(rs):
     k = int(rs.randint(0, 8))
     if k == 0:
@@ -493,8 +517,9 @@ def gen_title(rs):
     return t
 
 
-def gen_case(rs, natoms=None, allow_wide=False, fmt_d=None, vel=None, declared=None):
-    """a well-formed writer run: conf + records (all records with or without velocities)"""
+def gen_case(rs, natoms=None, allow_wide=False, fmt_d=None, vel=None, declared=None, nonascii=False):
+    """a well-formed writer run: conf + records (all records with or without velocities);
+    nonascii: one title in four contains multi-byte characters (S oracles only)"""
     if natoms is None:
         natoms = int(rs.choice([1, 1, 2, 2, 3, 3, 4, 5, 6, 8, 12, 20]))
     if fmt_d is None:
@@ -512,9 +537,47 @@ def gen_case(rs, natoms=None, allow_wide=False, fmt_d=None, vel=None, declared=N
         if vel:
             r += [gen_value(rs, 3, d + 1, allow_wide) for _ in range(3)]
         recs.append(tuple(r))
-    conf = {"title": gen_title(rs), "natoms": natoms if declared else None, "fmt": fmt,
+    title = gen_title(rs)
+    if nonascii and rs.randint(0, 4) == 0 and nonascii_ok():
+        title = gen_title_nonascii(rs)
+    conf = {"title": title, "natoms": natoms if declared else None, "fmt": fmt,
             "box": gen_box(rs)}
     return conf, recs
+
+
+def to_crlf(text):
+    """the same file with CRLF line ends (text = bytes as latin-1 characters, no CR in it)"""
+    return text.replace("\n", "\r\n")
+
+
+def run_abandoned(path, conf, recs, k, box_late):
+    """The scenario of a program that fails while exporting: the writer is created in a function, k records are
+    written, the code producing the next record raises, close() is never called and nothing keeps the
+    writer; after gc.collect() the file left on disk is opened.  Returns the reader's observation."""
+    import gc as _gc
+
+    def produce():
+        for i, r in enumerate(recs):
+            if i == k:
+                raise RuntimeError("record %d could not be computed" % i)
+            yield tuple(r)
+        raise RuntimeError("failure after the last record, before close")
+
+    def export():
+        out = GroFile()(path, "w")
+        c = dict(conf)
+        if box_late:
+            c["box"] = ("default",)         # the caller would have set the box just before close()
+        apply_conf(out, c)
+        for r in produce():
+            out.writeline(r)
+        out.close()                         # never reached
+    try:
+        export()
+    except RuntimeError:
+        pass
+    _gc.collect()
+    return run_reader(path)
 
 
 def case_json(conf, recs):
